@@ -37,7 +37,7 @@ func (c C14Case) hash() uint64 {
 	return hashBytes([]byte(c.Obj.Kind + "\x00" + c.Obj.Expr + "\x00" + c.Obj.Opts.Hook + c.Obj.Opts.Unknown + c.Obj.Opts.Tag + fmt.Sprint(c.Obj.Opts.Max) + "\x00" + c.Datum.String() + c.Op + pre))
 }
 
-var mixedFamilyNames = []string{"eq", "path", "in", "re", "poison", "nested", "tslice", "tptr", "filter", "tfilter", "eq", "path", "ieq", "neq", "fold", "qfilter"}
+var mixedFamilyNames = []string{"eq", "path", "in", "re", "poison", "nested", "tslice", "tptr", "filter", "tfilter", "eq", "path", "ieq", "neq", "fold", "qfilter", "deep", "dfilter", "ikin"}
 
 func genClasses(r *plan.Rand) string {
 	n := r.Range(2, 8)
@@ -75,7 +75,7 @@ func GenC14Case(seed uint64, idx int) C14Case {
 			c.Prelude = &DatumSpec{Gen: "mixed:" + fam + ":" + string(b) + ":alt", Seed: 1}
 		}
 		body := MixedFamilies[fam]
-		if fam == "filter" || fam == "tfilter" || fam == "qfilter" {
+		if fam == "filter" || fam == "tfilter" || fam == "qfilter" || fam == "dfilter" {
 			c.Op = "exec"
 			c.Obj = ObjSpec{Kind: "filter", Expr: body}
 			if r.Chance(0.3) {
@@ -164,6 +164,12 @@ type envFault struct {
 	ClockJumps []verifsim.ClockJump `json:"clock_jumps,omitempty"`
 	Procs      int                  `json:"procs,omitempty"`
 	Sched      *schedFault          `json:"schedule,omitempty"`
+	// Tape: the map-order tape of the call (the call is always a fresh object's first)
+	Tape []uint64 `json:"tape,omitempty"`
+}
+
+func (e envFault) orderOnly() bool {
+	return len(e.Tape) > 0 && e.RandSeed == 0 && len(e.ClockJumps) == 0 && e.Procs == 0 && e.Sched == nil
 }
 
 // schedFault: the call runs as the only caller under the cooperative scheduler;
@@ -184,6 +190,9 @@ func (e envFault) String() string {
 	}
 	if e.Procs != 0 {
 		parts = append(parts, fmt.Sprintf("%d processors reported to the library", e.Procs))
+	}
+	if len(e.Tape) > 0 {
+		parts = append(parts, fmt.Sprintf("map order tape %v", e.Tape))
 	}
 	if e.Sched != nil {
 		parts = append(parts, fmt.Sprintf("the library's own goroutines scheduled with time slice %d, pick stream %d", e.Sched.Quantum, e.Sched.Pick))
@@ -284,7 +293,7 @@ func (cr *caseRunner) runEnv(env envFault) orderRun {
 	if cr.c.Prelude != nil {
 		runOrder(obj, Build(*cr.c.Prelude), cr.c.Op, nil)
 	}
-	return runOrderEnv(obj, cr.datum, cr.c.Op, nil, env)
+	return runOrderEnv(obj, cr.datum, cr.c.Op, env.Tape, env)
 }
 
 // history returns the tapes that ran on the shared object before the last one.
@@ -523,6 +532,29 @@ func RunC14Case(c C14Case, seed uint64, tier string) C14Result {
 		}
 		for i := 1; i < n; i++ {
 			if !try(mk(verifsim.CodeFirst0 + uint64(i))) {
+				return res
+			}
+		}
+	}
+	// the same orders as a fresh object's first call: whatever an object
+	// remembers from its first call (and then sticks to) depends on the order of
+	// that call only
+	if c.Prelude == nil && base.N > 0 {
+		n0 := base.Decisions[0].N
+		tapes := [][]uint64{{verifsim.CodeReverse}, {verifsim.CodeRotate0 + 1}, {verifsim.CodeFirst0 + uint64(n0-1)}}
+		for i := 0; i < 3; i++ {
+			t := make([]uint64, r.Range(1, 3))
+			for k := range t {
+				t[k] = r.Uint64() % (verifsim.SpecialBase - 1)
+			}
+			tapes = append(tapes, t)
+		}
+		for _, t := range tapes {
+			run := cr.runEnv(envFault{Tape: t})
+			res.Orders++
+			if !sameC14(run.Out, base.Out) {
+				e := envFault{Tape: t}
+				res.Violation = &C14Diff{TapeA: []uint64{}, TapeB: t, OutA: base.Out, OutB: run.Out, Env: &e}
 				return res
 			}
 		}
@@ -780,7 +812,9 @@ func workerC14(cfg WorkerCfg) int {
 			sum.Violations++
 			kind, key := "order-dependent", fmt.Sprintf("C14/order/%s/%s", min.Op, min.Family)
 			detail := fmt.Sprintf("%s %q on datum %s: canonical order gives %s, order tape %v gives %s", min.Op, min.Obj.Expr, min.Datum.String(), diff.OutA, diff.TapeB, diff.OutB)
-			if diff.Env != nil {
+			if diff.Env != nil && diff.Env.orderOnly() {
+				detail = fmt.Sprintf("%s %q on datum %s: a fresh object's first call in canonical order gives %s, a fresh object's first call with order tape %v gives %s", min.Op, min.Obj.Expr, min.Datum.String(), diff.OutA, diff.Env.Tape, diff.OutB)
+			} else if diff.Env != nil {
 				kind, key = "environment-dependent", fmt.Sprintf("C14/environment/%s/%s", min.Op, min.Family)
 				detail = fmt.Sprintf("%s %q on datum %s: a fresh object's call gives %s; the same call with %s gives %s", min.Op, min.Obj.Expr, min.Datum.String(), diff.OutA, diff.Env.String(), diff.OutB)
 			}
